@@ -65,6 +65,9 @@ pub mod rng;
 pub mod shape;
 pub mod types;
 pub mod var;
+
+#[cfg(fidget_verif)]
+pub mod verif;
 pub mod vm;
 
 #[cfg(test)]
